@@ -201,6 +201,12 @@ variable {α : Type} [RealLike α]
 @[simp] theorem ofMask_ok (M : Arr Bool) : (ofMask M : Arr α).ok = M.ok := rfl
 @[simp] theorem ofMask_get (M : Arr Bool) (i j : Nat) : (ofMask M : Arr α).get i j = ofBool (M.get i j) := rfl
 
+@[simp] theorem fillDiagonal_r (A : Arr α) (s : α) : (fillDiagonal A s).r = A.r := rfl
+@[simp] theorem fillDiagonal_c (A : Arr α) (s : α) : (fillDiagonal A s).c = A.c := rfl
+@[simp] theorem fillDiagonal_ok (A : Arr α) (s : α) : (fillDiagonal A s).ok = A.ok := rfl
+@[simp] theorem fillDiagonal_get (A : Arr α) (s : α) (i j : Nat) :
+    (fillDiagonal A s).get i j = if i = j then s else A.get i j := rfl
+
 @[simp] theorem setWhere_r (A : Arr α) (M : Arr Bool) (s : α) : (setWhere A M s).r = A.r := rfl
 @[simp] theorem setWhere_c (A : Arr α) (M : Arr Bool) (s : α) : (setWhere A M s).c = A.c := rfl
 @[simp] theorem setWhere_ok (A : Arr α) (M : Arr Bool) (s : α) :
@@ -372,3 +378,11 @@ theorem IsMat.eqv {n k : Nat} {A : Arr α} {f : Fin n → Fin k → α} (h : IsM
 
 end Arr
 end GemVerif.Np
+
+/-- `name_expr x := e at h`: gives the sub-expression `e` the name `x` (a new, opaque variable) — in the hypothesis `h`,
+    which states what is known about `e`, and wherever `e` occurs in the goal (nothing happens when it does not occur
+    there).  It is `generalize e = x at h ⊢`, done by `simp only`, which keeps the sharing of the large goals the
+    `…Gen` theorems get once every `let` of a generated definition is unfolded.  The `…Gen` proofs name the NumPy
+    EXPRESSIONS of the source this way, so that they do not depend on which temporaries the source uses for them. -/
+macro "name_expr " x:ident " := " e:term " at " h:ident : tactic =>
+  `(tactic| (obtain ⟨$x:ident, hx⟩ : ∃ y, $e = y := ⟨_, rfl⟩; rw [hx] at $h:ident; try simp only [hx]; clear hx))
